@@ -86,7 +86,7 @@ CHECKS = {
    technique="explicit-state BFS (bounded depth) over the real implementation; refusal-leaves-state-unchanged invariant checked after every refused transition",
    design_ref="DESIGN.md §5 C07"),
  "C01": dict(engine="hist", level="model_checking",
-   text="Explicit-state BFS over persisted account states of a real LocalAccount on both backends. Every transition copies the parent's data directory, signs in with a fresh account object (reload from storage), applies one Account operation (create/update/move/delete/archive/unarchive secret; create/rename/re-flag/describe/delete folder; empty and 1 MiB values) and compares the full decrypted view (list_folders, list_secret_ids, read_secret of every id, descriptions) with a reference model: right after the operation, after lock+unlock of every folder, after sign-out/sign-in (thorough) and after a fresh sign-in on the persisted result. Starts from a non-empty account so that row-splicing cases are reached at depth 1-2. The same histories are executed on fs and sqlite and must reach the same canonical state.",
+   text="Explicit-state BFS over persisted account states of a real LocalAccount on both backends. Every transition copies the parent's data directory, signs in with a fresh account object (reload from storage), applies one Account operation (create/update/move/delete/archive/unarchive secret; create/rename/re-flag/describe/delete folder; empty and 1 MiB values) and compares the full decrypted view (list_folders, list_secret_ids, read_secret of every id, descriptions) with a reference model: right after the operation, after lock+unlock of every folder, after sign-out/sign-in (thorough) and after a fresh sign-in on the persisted result. Starts from a non-empty account so that row-splicing cases are reached at depth 1-2. The same histories are executed on fs and sqlite and must reach the same canonical state. A value sweep creates every secret value of the structure enumerator (all 15 kinds x every optional field present / absent x user-data shapes; 1 560 values over both backends) through the account and reads it back at once and after a fresh sign-in. The user folder of the initial state uses XChaCha20-Poly1305, the others AES-GCM-256.",
    note="Bounded depth (2 quick / 3 thorough) from a two-folder, two-secret initial account; kinds note/login(/file); AES-GCM default cipher (XChaCha20 reached through change_cipher in C12); caller-chosen ids at the Folder API not yet explored.",
    technique="explicit-state BFS over real persisted account states with a reference-model oracle at every transition",
    design_ref="DESIGN.md §5 C01"),
